@@ -759,6 +759,10 @@ theorem step_preserves {n n' : Node} {op : Op} {acc : Bool} (hI : Inv n) (hf : F
   cases op with
   | cpSign c r i =>
     simp only [Node.exec] at hs
+    cases hd : untrimmed n0.dust i.inc i.out with
+    | false => simp only [hd, Bool.not_false, ↓reduceIte] at hs; cases hs; exact hI0
+    | true =>
+    simp only [hd, Bool.not_true, Bool.false_eq_true, ↓reduceIte] at hs
     cases hr : n0.cpSign c r i with
     | mk n1 v =>
       cases v with
@@ -767,6 +771,10 @@ theorem step_preserves {n n' : Node} {op : Op} {acc : Bool} (hI : Inv n) (hf : F
       | panic => simp [hr] at hs
   | hValidate c r i =>
     simp only [Node.exec] at hs
+    cases hd : untrimmed n0.dust i.out i.inc with
+    | false => simp only [hd, Bool.not_false, ↓reduceIte] at hs; cases hs; exact hI0
+    | true =>
+    simp only [hd, Bool.not_true, Bool.false_eq_true, ↓reduceIte] at hs
     cases hr : n0.hValidate c r i with
     | mk n1 v =>
       cases v with
